@@ -134,6 +134,11 @@ class CkptBackend(TrialBackend):
         super().pause_trial(trial_id, result)
 
     def _pause_trial(self, trial_id, result):
+        # injectable fault: the n-th _pause_trial fails (marker file cannot be written / job cannot be signalled)
+        self.n_pause_calls = getattr(self, "n_pause_calls", 0) + 1
+        if self.n_pause_calls in (self.spec.get("pause_fault") or []):
+            self.log.append(("pause_fault", int(trial_id)))
+            raise OSError("injected fault: trial %d cannot be paused" % trial_id)
         # the worker is killed; the checkpoint kept is the one of the report
         # the scheduler decided on (later epochs of the same poll are discarded)
         if result is not None and trial_id in self.ckpt and trial_id not in self.deleted:
